@@ -349,6 +349,9 @@ func (r *Run) mutEvents(path *Path) []mutEvent {
 		if !isRepoPkg(f.Pkg()) {
 			continue
 		}
+		if i+1 < len(path.Events) && path.Events[i+1].Kind == EvEnter && path.Events[i+1].Helper && path.Events[i+1].Lit == nil {
+			continue // looked into on this path: what it does here is in the events that follow, not in its summary
+		}
 		eff := r.effects(f)
 		if len(eff) == 0 {
 			continue
